@@ -524,15 +524,15 @@ func c17R8(c *Ctx, r *Report) {
 
 var c19R4bReviewed = map[string]string{
 	"hir/analysis.(*CFGBuilder).findMissingReturnBranches": "line number inside a diagnostic message",
-	"hir/analysis.checkCatchHandlerReturns":               "line number inside a diagnostic message",
-	"hir/analysis.findMissingReturnBranches":              "line number inside a diagnostic message",
-	"semantics/typechecker.checkBlock":                    "narrowing scope key: written and looked up with the same (line, column) pair of the block, both components kept apart",
-	"hir/analysis.AnalyzeReturns":                         "line number inside a diagnostic message",
-	"semantics/typechecker.storeNarrowingArtifacts":       "narrowing scope key (see checkBlock)",
-	"frontend/parser.(*Parser).takeDocComment":            "doc attachment",
-	"frontend/parser.(*Parser).collectCommentGroup":       "doc attachment",
-	"frontend/parser.(*Parser).advance":                   "doc attachment bookkeeping (line of the last non-comment token)",
-	"frontend/parser.(*Parser).advanceRaw":                "doc attachment bookkeeping",
+	"hir/analysis.checkCatchHandlerReturns":                "line number inside a diagnostic message",
+	"hir/analysis.findMissingReturnBranches":               "line number inside a diagnostic message",
+	"semantics/typechecker.checkBlock":                     "narrowing scope key: written and looked up with the same (line, column) pair of the block, both components kept apart",
+	"hir/analysis.AnalyzeReturns":                          "line number inside a diagnostic message",
+	"semantics/typechecker.storeNarrowingArtifacts":        "narrowing scope key (see checkBlock)",
+	"frontend/parser.(*Parser).takeDocComment":             "doc attachment",
+	"frontend/parser.(*Parser).collectCommentGroup":        "doc attachment",
+	"frontend/parser.(*Parser).advance":                    "doc attachment bookkeeping (line of the last non-comment token)",
+	"frontend/parser.(*Parser).advanceRaw":                 "doc attachment bookkeeping",
 }
 
 func c19R4b(c *Ctx, r *Report) {
@@ -570,6 +570,46 @@ func c19R4b(c *Ctx, r *Report) {
 		}
 	}
 	r.Floor(rule, n, 3, "functions reading line/column outside diagnostics")
+	// helpers of the position packages that compute a decision (non-string result) from a line or column: their
+	// callers in compiler logic are position readers too
+	helpers := map[*types.Func]bool{}
+	for _, rel := range []string{"internal/source", "internal/diagnostics", "internal/tokens"} {
+		for _, fn := range c.AllFns(rel) {
+			sig := fn.Obj.Type().(*types.Signature)
+			if sig.Results().Len() != 1 {
+				continue
+			}
+			if b, ok := sig.Results().At(0).Type().Underlying().(*types.Basic); !ok || b.Info()&(types.IsBoolean|types.IsInteger) == 0 {
+				continue
+			}
+			info := fn.Info()
+			ast.Inspect(fn.Decl.Body, func(x ast.Node) bool {
+				if sel, ok := x.(*ast.SelectorExpr); ok && (info.Uses[sel.Sel] == line || info.Uses[sel.Sel] == col) {
+					helpers[fn.Obj] = true
+				}
+				return true
+			})
+		}
+	}
+	for _, p := range c.Pkgs {
+		rel := relOf(p.PkgPath)
+		if rel == "internal/diagnostics" || rel == "internal/source" || rel == "internal/tokens" || rel == "tools" || rel == "internal/frontend/lexer" {
+			continue
+		}
+		for _, fn := range c.AllFns(rel) {
+			info := fn.Info()
+			for _, cl := range callsIn(fn.Decl.Body, true) {
+				f := callee(info, cl)
+				if f == nil || !helpers[f] {
+					continue
+				}
+				_, ok := c19R4bReviewed[fn.Name()]
+				r.Check(ok, rule, fn.Name(), "calls "+funcKey(f)+", which decides from a line/column number", c.pos(cl.Pos()),
+					"compiler logic takes a decision from "+funcKey(f)+", which compares line or column numbers: two tokens on the same line are indistinguishable for it, so inserting a line break between them changes the decision (a use before its declaration on the same line is accepted, on separate lines rejected)")
+			}
+		}
+	}
+	r.Note("%s: %d position-deciding helpers in source/diagnostics/tokens", rule, len(helpers))
 }
 
 // ---- C14.R6 ---------------------------------------------------------------------------------------------
